@@ -72,8 +72,9 @@ def perturb(rng, table, level=0.3, drop=0.0, spurious=0.0, gene=None):
     return out
 
 
-def make_coverage(gene, profile, table, low=None, indels=None):
-    """table: {pos: {op: n_good}}, low: {pos: {op: (n_lowbase, n_lowmap)}}."""
+def make_coverage(gene, profile, table, low=None, indels=None, extra=None):
+    """table: {pos: {op: n_good}}, low: {pos: {op: (n_lowbase, n_lowmap)}},
+    extra: {pos: {op: [(mapq, baseq), ...]}} arbitrary observations."""
     from aldy.coverage import Coverage
 
     cov = collections.defaultdict(dict)
@@ -84,4 +85,8 @@ def make_coverage(gene, profile, table, low=None, indels=None):
         for op, (nb, nm) in ops.items():
             cov[pos].setdefault(op, [])
             cov[pos][op] = cov[pos][op] + [LOW_BASE] * nb + [LOW_MAP] * nm
+    for pos, ops in (extra or {}).items():
+        for op, quals in ops.items():
+            cov[pos].setdefault(op, [])
+            cov[pos][op] = cov[pos][op] + [tuple(q) for q in quals]
     return Coverage(gene, profile, None, dict(cov), indels, {})
